@@ -23,6 +23,9 @@ SCRIPTS = [
 ]
 
 
+WLFLAGS = [(True, True), (False, True), (True, False)]      # (rxed, txed) of the attached wire logs, rotated over the jobs
+
+
 def BOUND(tier):
     return 3 if tier == "quick" else 5
 
@@ -30,7 +33,8 @@ def BOUND(tier):
 def RULE(tier):
     return ("real tcp Client/ClientTls <-> Server/ServerTls over FakeNet, buffer size 4 and 8096, %d tx/service scripts with payloads "
             "of 0, 1, 3 and bs+1 bytes in both directions; every execution with <= %d non-default kernel answers (send accepts "
-            "0/1/n-1 bytes, recv hands out 1 byte, connect EINPROGRESS, TLS want-read/want-write at handshake/send/recv). After "
+            "0/1/n-1 bytes, recv hands out 1 byte, connect EINPROGRESS, TLS want-read/want-write at handshake and - each of the two - at any send and any recv). The client "
+            "uses application-supplied rx/tx buffers; wire logs are attached with (rxed, txed) rotating over (T,T), (F,T), (T,F). After "
             "every service round: bytes received are a prefix of bytes transmitted (both directions) and each wire log equals the "
             "bytes FakeNet accepted/delivered; after settling: equality and empty tx buffers." % (len(SCRIPTS), BOUND(tier)))
 
@@ -44,7 +48,7 @@ def jobs(tier):
     for tls in (False, True):
         for bs in (4, 8096):
             for i in range(len(SCRIPTS)):
-                js.append(("C09", tls, bs, i))
+                js.append(("C09", tls, bs, i, WLFLAGS[(i + (1 if tls else 0) + (1 if bs == 4 else 0)) % len(WLFLAGS)]))
     return sharded(js, 2 if tier == "quick" else 8)
 
 
@@ -60,9 +64,10 @@ def payload(code, bs):
 
 def harness(job, ch):
     _, tls, bs, si = job[:4]
+    rxed, txed = job[4] if len(job) > 4 and isinstance(job[4], (tuple, list)) and len(job[4]) == 2 and job[4][0] != "shard" else (True, True)
     script = SCRIPTS[si].split()
     app_rx, app_tx = bytearray(), bytearray()      # application-supplied (initially empty) buffers, as http.Client passes them
-    w = tcpsys.TcpWorld(ch, tls=tls, bs=bs, wirelog=True, client_kwa=dict(rxbs=app_rx, txbs=app_tx),
+    w = tcpsys.TcpWorld(ch, tls=tls, bs=bs, wirelog=True, wlflags=(rxed, txed), client_kwa=dict(rxbs=app_rx, txbs=app_tx),
                         policy=tcpsys.XPolicy(ch, partial=True, faults=(), wants=tls))
     viol = []
     states = []
@@ -84,18 +89,18 @@ def harness(job, ch):
             # wire logs vs kernel log
             craw = getattr(client.cs, "raw", client.cs) if client.cs is not None else None
             if craw is not None:
-                if w.cwls[0].readTx() != bytes(craw.sent):
+                if txed and w.cwls[0].readTx() != bytes(craw.sent):
                     viol.append(("wirelog:client-tx:%s" % ("tls" if tls else "plain"),
                                  "%s: client wire log tx %r, kernel accepted %r" % (stage, w.cwls[0].readTx()[:40], bytes(craw.sent)[:40])))
-                if w.cwls[0].readRx() != bytes(craw.delivered):
+                if rxed and w.cwls[0].readRx() != bytes(craw.delivered):
                     viol.append(("wirelog:client-rx:%s" % ("tls" if tls else "plain"),
                                  "%s: client wire log rx %r, kernel delivered %r" % (stage, w.cwls[0].readRx()[:40], bytes(craw.delivered)[:40])))
                 sraw = craw.peer
                 if sraw is not None and rem is not None:
-                    if w.swl.readTx() != bytes(sraw.sent):
+                    if txed and w.swl.readTx() != bytes(sraw.sent):
                         viol.append(("wirelog:server-tx:%s" % ("tls" if tls else "plain"),
                                      "%s: server wire log tx %r, kernel accepted %r" % (stage, w.swl.readTx()[:40], bytes(sraw.sent)[:40])))
-                    if w.swl.readRx() != bytes(sraw.delivered):
+                    if rxed and w.swl.readRx() != bytes(sraw.delivered):
                         viol.append(("wirelog:server-rx:%s" % ("tls" if tls else "plain"),
                                      "%s: server wire log rx %r, kernel delivered %r" % (stage, w.swl.readRx()[:40], bytes(sraw.delivered)[:40])))
             states.append((len(srx), len(crx), len(client.txbs), len(rem.txbs) if rem is not None else -1,
@@ -106,8 +111,8 @@ def harness(job, ch):
                 check("round %d" % k)
             elif step[0] == "C":
                 p = payload(step[1], bs)
-                if k % 2:
-                    app_tx.extend(p)        # the application fills the transmit buffer it supplied
+                if ctx or k % 2:
+                    app_tx.extend(p)        # the application fills the transmit buffer it supplied (every transmit after the first)
                 else:
                     client.tx(p)
                 ctx.extend(p)
@@ -138,9 +143,10 @@ def harness(job, ch):
             rem = w.remoter_of(0)
             if not viol:
                 srx = bytes(rem.rxbs) if rem is not None else b""
-                if srx != bytes(ctx) or client.txbs:
+                if srx != bytes(ctx) or client.txbs or app_tx:
                     viol.append(("liveness:client-to-server:%s" % ("tls" if tls else "plain"),
-                                 "after %d healthy rounds server has %d of %d bytes, client txbs %d" % (need, len(srx), len(ctx), len(client.txbs))))
+                                 "after %d healthy rounds server has %d of %d bytes, client txbs %d, supplied tx buffer %d" % (
+                                     need, len(srx), len(ctx), len(client.txbs), len(app_tx))))
                 if bytes(app_rx) != bytes(stx) or (rem is not None and rem.txbs):
                     viol.append(("liveness:server-to-client:%s" % ("tls" if tls else "plain"),
                                  "after %d healthy rounds client has %d of %d bytes" % (need, len(app_rx), len(stx))))
